@@ -283,16 +283,19 @@ class Field:
         return False
 
     def attr(self):
+        zp = "zpad" in getattr(self, "style", "std")
+        num = (lambda v: f"{v:03d}") if zp else (lambda v: f"{v}")
+
         def one(lo, n, in_list):
             if n == 1 and (in_list or self.ty.kind == "bool" or getattr(self, "single_bit_syntax", True)):
-                return f"{lo}"
-            return f"{lo}..={lo + n - 1}"
+                return num(lo)
+            return f"{num(lo)}..={num(lo + n - 1)}"
         if len(self.ranges) == 1 and not getattr(self, "force_list", False):
             lo, n = self.ranges[0]
             if n == 1:
-                head, body = "bit", f"{lo}"
+                head, body = "bit", num(lo)
             else:
-                head, body = "bits", f"{lo}..={lo + n - 1}"
+                head, body = "bits", f"{num(lo)}..={num(lo + n - 1)}"
         else:
             head = "bits"
             body = "[" + ", ".join(one(lo, n, True) for lo, n in self.ranges) + "]"
@@ -300,7 +303,7 @@ class Field:
         acc = [self.access] if self.access else []
         stride = []
         if self.array and self.array[1] is not None:
-            stride = [f"stride {':' if 'colon' in style else '='} {self.array[1]}"]
+            stride = [f"stride {':' if 'colon' in style else '='} {num(self.array[1])}"]
         if style.startswith("stride_first"):
             parts = stride + [body] + acc
         elif style.startswith("access_first"):
